@@ -62,6 +62,7 @@ func main() {
 	c.Assume("a node restart is modelled as Close + reopen of the same directory (dirty mapped pages survive a process kill, so the directory content is the same)")
 	c.Assume("a follower restart always breaks the replica stream (the TCP connection dies with the process)")
 	c.Assume("'positions the leader still holds' for resuming = positions above the follower's consumer-group ack on the leader (acknowledged positions may be garbage collected at any moment); for byte comparison = positions Queue.Get still returns")
+	c.Assume("the queue directories of both nodes live on tmpfs (/dev/shm/verif-C08-<pid>, removed at the end of the run; directories of dead runs are removed at start) when /dev/shm exists, else under the run's scratch directory: every consumer-group ack msyncs its meta page, which costs milliseconds on disk and is irrelevant to the process-kill fault model")
 	c.Assume("the local replicator on the follower (log -> tsdb) is not run; only the log copy is judged")
 	nSeq := c.Pick(1600, 100000)
 	per := c.Pick(25, 250)
